@@ -4,7 +4,7 @@
 # Optional argument: another checkout of the repository (used for seeded changes in scratch copies).
 REPO_DIR=${1:-/repo}
 OUT=$(mktemp -d)
-cd "$REPO_DIR" && env -u PYDCOP_VERIF PYTHONPATH="$REPO_DIR" /venv/bin/python -m pytest -ra -q -p no:cacheprovider --timeout=900 \
+cd "$REPO_DIR" && env -u PYDCOP_VERIF PYTHONPATH="$REPO_DIR" timeout -k 5 900 /venv/bin/python -m pytest -ra -q -p no:cacheprovider --timeout=900 \
    --continue-on-collection-errors --junitxml=$OUT/j.xml > $OUT/log 2>&1
 tail -1 $OUT/log
 /venv/bin/python - "$OUT/j.xml" <<'PY'
